@@ -31,6 +31,8 @@ def tasks(tier):
     for v, c, f in fns:
         for sc in (False, True):
             t.append(dict(module="defs", fn="h_func", shape=dict(vars=v, cons=c, fmt=f, scaled=sc), opts=o))
+    for sc in (False, True):
+        t.append(dict(module="defs", fn="h_func", shape=dict(vars=["boxed", "lower"], cons=["eq0"], fmt="csr", scaled=sc, default_active_set=True), opts=o))
     for fmt in ("coo", "csr", "csc"):
         t.append(dict(module="defs", fn="h_keep_rows", shape=dict(m=2, n=2, fmt=fmt, dup=(fmt == "coo")), opts={}))
     t.append(dict(module="defs", fn="h_keep_rows", shape=dict(m=3, n=2, fmt="coo", full=True), opts={}))
